@@ -314,6 +314,14 @@ def check(tier: str) -> int:
                 arr[gen].append((t, d))
                 if rng.random() < 0.3:
                     arr[gen].append((rng.choice(grid), d))      # duplicate
+                if rng.random() < 0.25:
+                    # a different datagram that shares the address and id (or the address and serial) with d:
+                    # not a duplicate - every vendor-format datagram yields its own entry
+                    parts = d.split(b",")
+                    if len(parts) >= 4:
+                        j = rng.choice([1, len(parts) - 1])
+                        parts[j] = parts[j] + rng.choice([b"X", b"2", b" "])
+                        arr[gen].append((rng.choice(grid), b",".join(parts)))
         remote = rng.choice([None, None, "10.1.2.3"])
         res = run_discover(arr[4], arr[5], remote)
         ck.count()
